@@ -189,6 +189,11 @@ def _eval_assign_inner(sim, lhs, lhs_start, rhs, rhs_len):
         mask = (1 << lhs_stop) - (1 << lhs_start)
         sim.slots[slot].write(lhs._index, rhs << lhs_start, mask)
     elif isinstance(lhs, Slice):
+        lhs_len = lhs.stop - lhs.start
+        if lhs_start >= lhs_len:
+            return
+        if lhs_start + rhs_len > lhs_len:
+            rhs_len = lhs_len - lhs_start
         _eval_assign_inner(sim, lhs.value, lhs_start + lhs.start, rhs, rhs_len)
     elif isinstance(lhs, Concat):
         part_stop = 0
@@ -216,6 +221,10 @@ def _eval_assign_inner(sim, lhs, lhs_start, rhs, rhs_len):
     elif isinstance(lhs, Part):
         offset = eval_value(sim, lhs.offset)
         offset *= lhs.stride
+        if lhs_start >= lhs.width:
+            return
+        if lhs_start + rhs_len > lhs.width:
+            rhs_len = lhs.width - lhs_start
         _eval_assign_inner(sim, lhs.value, lhs_start + offset, rhs, rhs_len)
     elif isinstance(lhs, SwitchValue):
         test = eval_value(sim, lhs.test)
